@@ -30,6 +30,27 @@ def decStrs (s : String) : List String := if s == "_" then [] else s.splitOn ","
 def decBool (s : String) : Bool := s == "1" || s == "true"
 def encBool (b : Bool) : String := if b then "1" else "0"
 
+/-! ### hex variants (C02/C03: names and residues are arbitrary bytes; mirror of codec.go) -/
+
+abbrev XRows := List (List Byte × Seq)
+
+/-- a whole wire field holding a byte string; `-` is the empty string -/
+def unhexz (s : String) : Option (List Byte) := if s == "-" || s == "" then some [] else bytesOfHex s
+
+def hexz (bs : List Byte) : String := if bs.isEmpty then "-" else hexOfBytes bs
+
+/-- `hexname:hexseq,hexname:hexseq` (`_` = no row) -/
+def decXRows (s : String) : Option XRows :=
+  if s == "_" then some [] else
+  (s.splitOn ",").mapM fun p =>
+    match p.splitOn ":" with
+    | [n, q] => do pure ((← bytesOfHex n), (← bytesOfHex q))
+    | _ => none
+
+def encXRows (rows : XRows) : String :=
+  if rows.isEmpty then "_" else
+  ",".intercalate (rows.map fun r => hexOfBytes r.1 ++ ":" ++ hexOfBytes r.2)
+
 /-- handler result: model's canonical result and the verdict of the property predicate evaluated on
 the *implementation's* result (`pass`, `fail:<clause>`, or `na` when the case lies outside the
 property's quantifier) -/
